@@ -54,6 +54,8 @@ def _fixture(auto_at_open, path):
     E["source"] = blk.create_source("src", "t")
     E["section"] = sec = f.create_section("sec", "t")
     E["subsection"] = sec.create_section("sub", "t")
+    E["data_frame"] = blk.create_data_frame("fr", "t", col_names=["c", "d"], col_dtypes=[int, float],
+                                            data=[(1, 0.5), (2, 1.5)])
     E["property"] = sec.create_property("p", [1, 2])
     # dimension descriptors (not entities: they carry no timestamps of their own)
     DIMS.clear()
@@ -146,6 +148,9 @@ def _listed_ops():
         ("source", "clear definition", lambda E: setattr(E["source"], "definition", None)),
         ("group", "clear definition", lambda E: setattr(E["group"], "definition", None)),
         ("feature", "link_type (str)", lambda E: setattr(E["feature"], "link_type", "Tagged")),
+        ("data_frame", "type", lambda E: setattr(E["data_frame"], "type", "u")),
+        ("data_frame", "definition", lambda E: setattr(E["data_frame"], "definition", "d")),
+        ("data_frame", "units", lambda E: setattr(E["data_frame"], "units", ["mV", None])),
     ]
 
 
@@ -175,6 +180,11 @@ def _other_ops():
         (None, "replace a link", lambda E: DIMS["lr"].link_data_array(E["da3"], [-1, 0])),
         (None, "ticks over a link", lambda E: setattr(DIMS["lr"], "ticks", [5.0, 6.0])),
         (None, "delete dimensions", lambda E: E["da2"].delete_dimensions()),
+        # table writes of a data frame
+        (None, "frame append rows", lambda E: E["data_frame"].append_rows([(3, 2.5)])),
+        (None, "frame write cell", lambda E: E["data_frame"].write_cell(9, position=[0, 0])),
+        (None, "frame append column", lambda E: E["data_frame"].append_column([1, 2], "e")),
+        (None, "frame as link target", lambda E: DIMS["set"].link_data_frame(E["data_frame"], 0)),
     ]
 
 
@@ -223,14 +233,14 @@ def _ob_listed(opi: int, auto: bool, toggle: bool, c0: int, c1: int) -> bool:
 def _ob_other(opi: int, auto: bool, c0: int, c1: int) -> bool:
     """
     pre: 0 <= c0 <= c1
-    pre: 0 <= opi < 22
+    pre: 0 <= opi < 26
     post: __return__
     """
     return _policy(opi, auto, False, c0, c1, _other_ops(), PATH)
 
 
 _FORCE_KINDS = ["file", "block", "group", "data_array", "tag", "multi_tag", "source", "section",
-                "subsection", "property"]
+                "subsection", "property", "data_frame"]
 
 
 def _other_handles(E):
@@ -241,12 +251,13 @@ def _other_handles(E):
             "da2": b.multi_tags["mt"].positions, "da3": b.data_arrays["da3"], "tag": b.tags["tg"],
             "feature": b.tags["tg"].features[0], "multi_tag": b.multi_tags["mt"], "group": b.groups["grp"],
             "source": b.sources["src"], "section": f.sections["sec"],
-            "subsection": f.sections["sec"].sections["sub"], "property": f.sections["sec"].props["p"]}
+            "subsection": f.sections["sec"].sections["sub"], "property": f.sections["sec"].props["p"],
+            "data_frame": b.data_frames["fr"]}
 
 
 def _ob_force(t: int, u: int, ki: int, c0: int) -> bool:
     """
-    pre: 0 <= ki < 10
+    pre: 0 <= ki < 11
     pre: 0 <= c0
     post: __return__
     """
@@ -380,14 +391,13 @@ OBLIGATIONS = [
                "semantic table of strftime/strptime directives + the civil-date algorithm, "
                "validated against the real functions on 3018 instants per run"),
     Ob("listed_setters_policy", _ob_listed, timeout=900,
-       partition=[(k, k + 3) for k in range(0, 51, 3)],
+       partition=[(k, k + 3) for k in range(0, 54, 3)],
        functions=[_E + "force_updated_at", _E + "type", _E + "definition",
                   "nixio.data_array.DataArray.label", "nixio.tag.Tag.position",
                   "nixio.multi_tag.MultiTag.positions", "nixio.section.Section.repository",
                   "nixio.feature.Feature.link_type", "nixio.file.File.auto_update_timestamps"],
        replay=_replay_listed,
-       outside="one fixture file with one entity per kind; DataFrame setters (data frames do not "
-               "work with the installed NumPy); persistence after reopening (libhdf5)"),
+       outside="one fixture file with one entity per kind; persistence after reopening (libhdf5)"),
     Ob("other_mutations_policy", _ob_other, timeout=600, functions=[_E + "created_at"],
        replay=_replay_other),
     Ob("force_then_read", _ob_force, timeout=600,
